@@ -608,3 +608,38 @@ Theorem cleanup_reversal_then_end_of_day cfg st w p w1 u w2 : get_pending cfg w 
   cancel_by_receipt cfg p w1 = (ROk u, w2) ->
   end_of_day cfg st w = (fst (eod_exchange cfg w2), {| s_txs := []; s_max := s_max st |}, snd (eod_exchange cfg w2)).
 Proof. intros E1 E2. unfold end_of_day, eod_exchange. rewrite E1. cbn [fold_left]. rewrite E2. destruct (consume _ _ _ w2 _ _ _). reflexivity. Qed.
+
+(* ---------- C07: commit and cancel close exactly their token, whatever the terminal answers ---------- *)
+
+Theorem cancel_closes_token cfg st tok rn w : assoc_tok tok (s_txs st) = Some rn ->
+  let '(_, st', _) := cancel_transaction cfg st tok w in
+  s_txs st' = remove_tok tok (s_txs st) /\ s_max st' = s_max st.
+Proof.
+  intros A. unfold cancel_transaction. rewrite A.
+  destruct (cancel_by_receipt cfg rn w) as [[u|e] w1]; [|split; reflexivity].
+  cbn [s_txs]. destruct (remove_tok tok (s_txs st)) eqn:R; [|split; reflexivity].
+  pose proof (end_of_day_state cfg {| s_txs := []; s_max := s_max st |} w1) as E.
+  destruct (end_of_day cfg _ w1) as [[r2 st2] w2]. destruct E as [E1 E2]. split; [exact E1|exact E2].
+Qed.
+
+Theorem commit_closes_token cfg st tok amount rn w : assoc_tok tok (s_txs st) = Some rn ->
+  let '(_, st', _) := commit_transaction cfg st tok amount w in
+  s_txs st' = remove_tok tok (s_txs st) /\ s_max st' = s_max st.
+Proof.
+  intros A. unfold commit_transaction. rewrite A.
+  match goal with |- context [consume ?f cfg ?r w ?a ?h ?fin] => destruct (consume f cfg r w a h fin) as [[si|e] w1] end; [|split; reflexivity].
+  cbn [s_txs]. destruct (remove_tok tok (s_txs st)) eqn:R.
+  - pose proof (end_of_day_state cfg {| s_txs := []; s_max := s_max st |} w1) as E.
+    destruct (end_of_day cfg _ w1) as [[r2 st2] w2]. destruct E as [E1 E2].
+    destruct r2; [destruct si|]; (split; [exact E1|exact E2]).
+  - destruct si; split; reflexivity.
+Qed.
+
+(* the token that was closed is the only one that changed: every other open token keeps its receipt number *)
+Lemma assoc_remove_other k k' l : list_eqb k' k = false -> assoc_tok k' (remove_tok k l) = assoc_tok k' l.
+Proof.
+  intros H. induction l as [|[a v] l IH]; [reflexivity|]. cbn [remove_tok assoc_tok].
+  destruct (list_eqb k a) eqn:E.
+  - apply list_eqb_eq in E. subst a. rewrite H. reflexivity.
+  - cbn [assoc_tok]. destruct (list_eqb k' a); [reflexivity|exact IH].
+Qed.
